@@ -65,7 +65,10 @@ def run(tier):
                 stop["tottime"] = sc["tot"] / D.UNIT
             if sc["maxit"] != -1:
                 stop["maxit"] = sc["maxit"]
-            raw, _ = S.call("solve", S.f0, 1.0, [t / D.UNIT for t in sc["tsave"]], stop or None)
+            ts_ = [t / D.UNIT for t in sc["tsave"]]
+            # the save times come as a list, a tuple or a numpy array, in turn
+            ts_ = [ts_, tuple(ts_), np.array(ts_, dtype=float)][rid % 3]
+            raw, _ = S.call("solve", S.f0, 1.0, ts_, stop or None)
             call = D.project([raw], rid)[0]
             rid += 1
             recs.append({"id": rid, "kind": "call", "call": call})
